@@ -460,12 +460,23 @@ def translate_mybatis(ops):
         if st is not None:
             # nested: a list of `if ch == lit: return op` followed by `return op`
             inner = s.body
+            # the block ends either with `return op.execute(memory, ch)` or with a re-labelling of the state followed by the base machine:
+            # `memory.status = FSMStatus.X; return super().handle(memory, ch)`
+            redirect = None
+            if (len(inner) >= 2 and isinstance(inner[-2], ast.Assign) and len(inner[-2].targets) == 1 and ast.unparse(inner[-2].targets[0]) == "memory.status"
+                    and isinstance(inner[-2].value, ast.Attribute) and ast.unparse(inner[-2].value.value) == "FSMStatus"
+                    and ast.unparse(inner[-1]) == "return super().handle(memory, ch)"):
+                redirect = inner[-2].value.attr
+                inner = inner[:-1]
             for k in inner[:-1]:
                 c = test_ch(k.test) if isinstance(k, ast.If) and not k.orelse and len(k.body) == 1 else None
                 o = ret_op(k.body[0]) if c is not None else None
                 if o is None:
                     raise Refuse("FSMMachineMyBatis.handle: " + ast.unparse(k))
                 rules.append({"status": st, "ch": c, "op": o})
+            if redirect is not None:
+                rules.append({"status": st, "ch": None, "op": None, "redirect": redirect})
+                continue
             o = ret_op(inner[-1])
             if o is None:
                 raise Refuse("FSMMachineMyBatis.handle: " + ast.unparse(inner[-1]))
@@ -876,6 +887,10 @@ def main():
         if shipped["mybatis_overrides"] != ["handle"] or shipped["mybatis_mro"][:2] != ["FSMMachineMyBatis", "FSMMachine"]:
             raise Refuse("FSMMachineMyBatis overrides more than handle: %r" % shipped["mybatis_overrides"])
         for r in mb_rules:
+            if r.get("redirect"):
+                if r["redirect"] not in statuses:
+                    raise Refuse("FSMMachineMyBatis.handle: unknown status " + r["redirect"])
+                continue
             check_opref(r["op"], ops, statuses)
         upper = upper_exceptions()
         st = dump_static()
@@ -928,8 +943,12 @@ def main():
              "abbrev cfgS : Cfg Cls := Cfg%d.cfg" % shipped_idx, "",
              "/-- `FSMMachineMyBatis.handle`: ordered intercepts with the literal strings compared -/",
              "def mbIntercepts : List (Intercept Cls) := ["]
-        M.append(",\n".join("  ⟨.%s, %s, %s⟩" % (r["status"], ".any" if r["ch"] is None else "(.lit %s)" % lean_chars(r["ch"]), lean_opref(r["op"]))
-                            for r in mb_rules) + "]")
+        def lean_rule(r):
+            test = ".any" if r["ch"] is None else "(.lit %s)" % lean_chars(r["ch"])
+            if r.get("redirect"):
+                return "  { status := .%s, ch := %s, op := ⟨.cRaise, .WAIT, 0⟩, redirect := some .%s }" % (r["status"], test, r["redirect"])
+            return "  ⟨.%s, %s, %s, none⟩" % (r["status"], test, lean_opref(r["op"]))
+        M.append(",\n".join(lean_rule(r) for r in mb_rules) + "]")
         M += ["", "def mybatis : Machine Cls := { cfg := cfgS, intercepts := mbIntercepts, endMarker := endMarker }",
               "def base : Machine Cls := { cfg := cfgS, intercepts := [], endMarker := endMarker }", "", "end Gen", ""]
         files["LexShipped.lean"] = "\n".join(M)
